@@ -175,6 +175,7 @@ def run(ctx):
                         traces.append(t[0]); tmeta.append((chain[0], cfg, st))
         reader_state_oracle(ctx, tmpdir)
         early_exit_correspondence(ctx, tmpdir)
+        context_correspondence(ctx, tmpdir)
         c04_flush.run_flush(ctx)
     finally:
         import shutil
@@ -316,6 +317,82 @@ def reader_state_oracle(ctx, tmpdir):
                            "stderr_500": rerr[-300:].decode("latin1"), "stderr_b": err[-300:].decode("latin1"),
                            "how": "mlr --records-per-batch %d %s  <the stdin/files above>  vs the same with --records-per-batch 500" % (b, " ".join(mflags + argv))})
     ctx.cov["reader_state_inputs"] = len(inputs)
+
+
+CDESC = {"cat": 0, "printnr": 1, "endnr": 2, "tac": 3}
+
+
+def context_correspondence(ctx, tmpdir):
+    """The data model WITH RECORD CONTEXT (coq/C04/CtxModel.v) against the binary: chains of cat / tac / head -n k /
+    put 'print "p".NR' (the record's own NR) / put -q 'end{print "e".NR}' (the end-of-stream marker's NR): stdout must be
+    an outcome the model allows (CtxModel.ctx_chk under vm_compute): without a head exactly the sequential result with
+    NR = the number of input records (C04_context_determinism_without_early_exit); with a head, the result on some
+    truncation of the input at a batch boundary with NR = the records of that truncation."""
+    rng = ctx.rng
+    fixed = [["endnr"], ["printnr", "endnr"], ["tac", "endnr"], ["printnr", "tac", "endnr"], ["cat", "printnr", "endnr"],
+             ["endnr", "endnr"], [11, "endnr"], [12, "printnr", "endnr"], ["printnr", 12, "endnr"], ["printnr", "tac", 12]]
+    pool_ = ["cat", "printnr", "tac", "endnr", 11, 13]
+    chains = fixed + [[rng.choice(pool_) for _ in range(rng.choice([1, 2, 3]))] + ["endnr"] for _ in range(4 if ctx.tier == "quick" else 60)]
+    jobs = []
+    for ch in chains:
+        for rep in range(2 if ctx.tier == "quick" else 4):
+            jobs.append((ch, rng.choice([5, 9, 14, 22]), rng.choice([1, 2, 3, 5]), None if rep == 0 else rng.randint(1, 10 ** 6)))
+
+    def argv_of(ch):
+        argv = []
+        for v in ch:
+            if argv:
+                argv.append("then")
+            argv += {"cat": ["cat"], "tac": ["tac"], "printnr": ["put", 'print "p".NR'], "endnr": ["put", "-q", 'end{print "e".NR}']}.get(v) or ["head", "-n", str(v - 10)]
+        return argv
+
+    def one(j):
+        ch, n, b, sched = j
+        inp = "".join("i=%d\n" % k for k in range(1, n + 1)).encode()
+        env = {"MLR_VERIF_SCHED": str(sched)} if sched is not None else {}
+        st, out, err = mlr_run(ctx, ["--records-per-batch", str(b)] + argv_of(ch), inp, timeout=60, env=env)
+        if st == "hang":
+            st, out, err = mlr_run(ctx, ["--records-per-batch", str(b)] + argv_of(ch), inp, timeout=300, env=env)
+        return st, out, err
+    from concurrent.futures import ThreadPoolExecutor
+    with ThreadPoolExecutor(max_workers=8) as ex:
+        res = list(ex.map(one, jobs))
+    terms, meta = [], []
+    for (ch, n, b, sched), (st, out, err) in zip(jobs, res):
+        argv = argv_of(ch)
+        ctx.count(("context", tuple(ch), n, b, sched)); ctx.dist("context-model")
+        if st != 0:
+            ctx.violation({"class": ("hang:context:" if st == "hang" else "context-run-failed:") + " ".join(argv), "chain": argv, "status": st,
+                           "stderr_tail": err[-300:].decode("latin1"), "input_records": n, "main_flags": ["--records-per-batch", str(b)]})
+            continue
+        obs, okparse = [], True
+        for line in out.decode("latin1").splitlines():
+            if line.startswith("i=") and line[2:].isdigit():
+                obs.append((0, int(line[2:])))
+            elif line[:1] == "p" and line[1:].isdigit():
+                obs.append((1, int(line[1:])))
+            elif line[:1] == "e" and line[1:].isdigit():
+                obs.append((2, int(line[1:])))
+            else:
+                okparse = False
+        if not okparse:
+            ctx.violation({"class": "context-unexpected-output", "chain": argv, "stdout_head": out[:300].decode("latin1")})
+            continue
+        terms.append("([%s], (%d, %d), [%s])" % ("; ".join(str(CDESC.get(v, v)) for v in ch), n, b, "; ".join("(%d, %d)" % p for p in obs)))
+        meta.append((argv, n, b, sched, out))
+    if terms:
+        with ctx.timed("coq_context_cases"):
+            bad, err = coq_eval_mismatches(ctx, "C04ctx", "C04.CtxModel", "list Z * (Z * Z) * list (Z * Z)", "ctx_chk", terms)
+        ctx.cov["correspondence"]["context_runs"] = len(terms)
+        ctx.cov["correspondence"]["context_rejected"] = len(bad)
+        if err:
+            ctx.violation({"broken": "context-evaluation", "detail": err[-1500:]}, found_input=False)
+        for i in [x for x in bad if x >= 0][:3]:
+            argv, n, b, sched, out = meta[i]
+            ctx.violation({"class": "context-model:" + " ".join(argv), "what": "stdout (record NR / end-block NR) is not an outcome of the data model with record context (C04.CtxModel.ctx_chk)",
+                           "chain": argv, "main_flags": ["--records-per-batch", str(b)], "input_records": n, "sched_seed": sched,
+                           "stdout_head": out[:400].decode("latin1"),
+                           "how": "seq 1 %d | sed s/^/i=/ | mlr --records-per-batch %d %s" % (n, b, " ".join(argv))})
 
 
 DESC = {"cat": 0, "tee": 1, "print": 2, "tac": 3}
